@@ -16,7 +16,25 @@
 (*  "dispatch" the Funcs table {aa, fn, mm, zz} with an AWK function shadowing *)
 (*             none / the first / a middle / the last name, the program        *)
 (*             calling the other Go functions and then fn                      *)
-(*  "small"    the union of the five families above                           *)
+(*  "extreme"  no parameter / one int parameter, result of every kind at every *)
+(*             extreme value of that kind (minimum, maximum, -1, 2^63, 2^63-1, *)
+(*             2^63+1, 2^53+1, +-MaxFloat, +-smallest denormal) x {no error    *)
+(*             result, nil error}; the prediction is the NUMBER (outcome.num)  *)
+(*  "shapes"   signatures built from parts (NativeMachine!GenSigs): every      *)
+(*             parameter kind, documented or not, plain / variadic / beside a  *)
+(*             documented one; 1-3 results over every first and second result  *)
+(*             type (error, concrete types implementing error, others); called *)
+(*             with 0..2 arguments or not called: set-up verdict, and the      *)
+(*             accepted ones are called                                        *)
+(*  "session"  histories of 2-3 Execute calls on ONE interpreter that start    *)
+(*             with a rejected set-up (an invalid function of every shape, or  *)
+(*             a keyword-like name), then the same Funcs again or the          *)
+(*             corrected function (exported as fam "session", one outcome per  *)
+(*             run)                                                            *)
+(*  "small"    the union of the eight families above                          *)
+(*  "extra"    (thorough tier) every PAIR of parameter kinds, documented or    *)
+(*             not, plain and variadic; every result shape behind an int and   *)
+(*             behind a map parameter; histories of 4 Execute calls            *)
 (*  "wide"     built slot by slot (for -simulate): 0..3 parameters over all    *)
 (*             kinds, variadic or not, any result mode, 0..n+2 arguments, any  *)
 (*             CONVFMT setting, any shadowed name                              *)
@@ -55,8 +73,44 @@ CasesDispatch ==
           : rm \in DispatchModes(ps), a \in {b \in {<<>>, <<"three">>, <<"abc">>} : Len(b) <= Len(ps)}, sh \in Shadows}
          : ps \in {<<>>, <<"int">>, <<"string", "int">>}}
 
+\* extreme results
+CasesExtreme ==
+  {Plain(sg, <<>>, TRUE) : sg \in ExtSigs(<<>>)} \cup {Plain(sg, a, TRUE) : sg \in ExtSigs(<<"int">>), a \in {<<"three">>}}
+\* shapes built from parts: called with as many arguments as fit, with fewer, with one too many, or not called
+CasesShapes ==
+  {Plain(sg, a, TRUE) : sg \in GenParamSigs, a \in {<<>>, <<"three">>, <<"three", "abc">>, <<"three", "abc", "zero">>}}
+  \cup {Plain(sg, a, TRUE) : sg \in GenResultSigs, a \in {<<>>, <<"three">>}}
+  \cup {Plain(sg, <<>>, FALSE) : sg \in GenSigs}
+\* histories on one interpreter.  The invalid functions: the fixed menu, one undocumented parameter of every kind
+\* (plain / variadic), the rejected result shapes; keyword-like names (not callable: the same Funcs every time)
+SessionSigs ==
+  {InvalidSig(s) : s \in InvalidShapes}
+  \cup {MkGen(<<k>>, vr, 0, "int", "error") : k \in BadKinds, vr \in {FALSE, TRUE}}
+  \cup {MkGen(<<"int">>, FALSE, 2, "int", r) : r \in SecondKinds \ {"error"}}
+  \cup {MkGen(<<>>, FALSE, 3, "int", "error"), MkGen(<<>>, FALSE, 1, "map", "error"), MkGen(<<"string">>, FALSE, 2, "struct", "error")}
+SessionRuns == {<<"bad", "bad">>, <<"bad", "fixed">>, <<"bad", "bad", "bad">>, <<"bad", "bad", "fixed">>, <<"bad", "fixed", "fixed">>}
+Session(sg, a, cl, rs) == [session |-> TRUE, sig |-> sg, args |-> a, called |-> cl, runs |-> rs]
+CasesSession ==
+  {Session(sg, a, TRUE, rs) : sg \in SessionSigs, a \in {<<>>, <<"three">>}, rs \in SessionRuns}
+  \cup {Session(sg, <<>>, FALSE, rs) : sg \in SessionSigs, rs \in SessionRuns}
+  \cup {Session(KeywordSig(n), <<>>, FALSE, rs) : n \in KeywordNames, rs \in {<<"bad", "bad">>, <<"bad", "bad", "bad">>}}
+\* only histories that begin: a call with too many arguments is rejected by the parser, there is no interpreter then
+SessionOK(c) == ~(c.called /\ ~IsVariadic(c.sig) /\ Len(c.args) > NumParams(c.sig))
+
+\* the thorough tier's additions
+CasesShapes2 ==
+  {Plain(MkGen(<<k1, k2>>, vr, 0, "int", "error"), a, TRUE) : k1 \in ParamKinds, k2 \in ParamKinds, vr \in {FALSE, TRUE}, a \in {<<>>, <<"three", "abc">>}}
+  \cup {Plain(MkGen(<<k>>, FALSE, n, rk, r), <<"three">>, TRUE) : k \in {"int", "map"}, n \in 1..3, rk \in ParamKinds, r \in SecondKinds}
+SessionRunsLong == {<<"bad", "bad", "bad", "bad">>, <<"bad", "bad", "bad", "fixed">>, <<"bad", "bad", "fixed", "fixed">>, <<"bad", "fixed", "fixed", "fixed">>}
+CasesSessionLong == {Session(sg, a, TRUE, rs) : sg \in SessionSigs, a \in {<<>>, <<"three">>}, rs \in SessionRunsLong}
+
+ExportSession(c) == [fam |-> "session", sig |-> c.sig, args |-> c.args, called |-> c.called, runs |-> c.runs,
+                     fixed |-> IF c.sig.name \in KeywordNames THEN c.sig ELSE Fixed(c.sig),
+                     outcomes |-> SessionOutcomes(c.sig, c.args, c.called, c.runs)]
 Export(c) == [fam |-> "native", sig |-> c.sig, args |-> c.args, called |-> c.called, shadow |-> c.shadow, cf |-> c.cf,
               outcome |-> OutcomeFull(c.sig, c.args, c.called, c.shadow, c.cf)]
+
+ExportAny(c) == IF "session" \in DOMAIN c THEN ExportSession(c) ELSE Export(c)
 
 \* builder state for the "wide" family
 VARIABLES b, emitted
@@ -70,7 +124,11 @@ Init ==
                                   shadow |-> "none", cf |-> DefaultCf]
      ELSE b \in (CASE Family = "args" -> CasesArgs [] Family = "results" -> CasesResults [] Family = "invalid" -> CasesInvalid
                     [] Family = "strform" -> CasesStrForm [] Family = "dispatch" -> CasesDispatch
-                    [] Family = "small" -> CasesArgs \cup CasesResults \cup CasesInvalid \cup CasesStrForm \cup CasesDispatch)
+                    [] Family = "extreme" -> CasesExtreme [] Family = "shapes" -> CasesShapes
+                    [] Family = "session" -> {c \in CasesSession : SessionOK(c)}
+                    [] Family = "extra" -> CasesShapes2 \cup {c \in CasesSessionLong : SessionOK(c)}
+                    [] Family = "small" -> CasesArgs \cup CasesResults \cup CasesInvalid \cup CasesStrForm \cup CasesDispatch
+                                           \cup CasesExtreme \cup CasesShapes \cup {c \in CasesSession : SessionOK(c)})
 
 Grow ==
   /\ Family = "wide" /\ ~emitted
@@ -88,8 +146,8 @@ Grow ==
 
 Emit ==
   /\ ~emitted /\ (Family = "wide" => b.stage = "done")
-  /\ PrintT(ToJson(Export(IF Family = "wide" THEN [sig |-> b.sig, args |-> b.args, called |-> TRUE, shadow |-> b.shadow, cf |-> b.cf]
-                           ELSE b)))
+  /\ PrintT(ToJson(ExportAny(IF Family = "wide" THEN [sig |-> b.sig, args |-> b.args, called |-> TRUE, shadow |-> b.shadow, cf |-> b.cf]
+                              ELSE b)))
   /\ emitted' = TRUE
   /\ UNCHANGED <<b, phase, sig, args, called, shadow, cf, recv, printed, ran>>
 Next == Grow \/ Emit
